@@ -108,6 +108,7 @@ type Exec struct {
 	cuts        map[string]*cutSpec
 	stubReal    map[*Term]*Term
 	initFrame   *frame
+	prngKeys    map[*Object]string
 	initSkipped int
 	stubOrder   []*Term
 }
